@@ -71,6 +71,28 @@ func init() {
 				c.Specs[0].Chunks = c.Keys
 				return c
 			}
+			if part == "walk" && len(ls) > 0 && r.Intn(4) == 0 {
+				// two calls: the first walks up to a stored entry and accepts it as it is, the second walks through the
+				// history, which now ends with that line (unless it was the newest entry already)
+				part = "walk-after-accept"
+				typed = ""
+				var first []string
+				j := 1 + r.Intn(len(ls))
+				for k := 0; k < j; k++ {
+					first = append(first, "\x18\x1aa")
+				}
+				first = append(first, "\r")
+				for k := range nav {
+					if nav[k] == "\x18\x1ad" {
+						nav[k] = "\x18\x1ab"
+					}
+				}
+				sp.Runs = 2
+				c := Case{Specs: []Spec{sp}, Keys: hexChunks(append(first, nav...)), Class: fmt.Sprintf("%s/entries=%d", part, len(ls)),
+					Meta: map[string]string{"part": part, "typed": typed, "kind": cmds, "first": fmt.Sprint(j)}}
+				c.Specs[0].Chunks = c.Keys
+				return c
+			}
 			c := Case{Specs: []Spec{sp}, Keys: hexChunks(nav), Class: fmt.Sprintf("%s/entries=%d", part, len(ls)),
 				Meta: map[string]string{"part": part, "typed": typed, "kind": cmds}}
 			var keys []string
@@ -132,6 +154,58 @@ func init() {
 					fs = append(fs, Finding{"C09", "history-modified", fmt.Sprintf("history %q became %q", entries, tr.Sources[0][0]), c})
 				}
 				return fs
+			}
+			if c.Meta["part"] == "walk-after-accept" {
+				var j int
+				fmt.Sscan(c.Meta["first"], &j)
+				raw := unhex(nav)
+				if len(tr.Results) < 1 || tr.Results[0].Err != "" || tr.Results[0].NWaits != j+1 || j < 1 || j > len(entries) ||
+					!strings.HasPrefix(raw, strings.Repeat("\x18\x1aa", j)+"\r") {
+					stat("skipped: not a walk up then an accept (shrunk)")
+					return nil
+				}
+				accepted := tr.Results[0].Line
+				if accepted != entries[len(entries)-j] {
+					stat("skipped: the first call did not return the entry it walked to (the single-call walk decides that)")
+					return nil
+				}
+				now := entries
+				if accepted != entries[len(entries)-1] {
+					now = append(append([]string{}, entries...), accepted)
+				}
+				i := 0
+				for k := j + 1; k < len(nav); k++ {
+					w := k + 1
+					if w >= len(tr.Waits) {
+						break
+					}
+					cmd := unhex(nav[k : k+1])
+					cmd = cmd[len(cmd)-1:]
+					switch cmd {
+					case "a":
+						if i < len(now) {
+							i++
+						}
+					case "b":
+						if i > 0 {
+							i--
+						}
+					case "c":
+						i = len(now)
+					default:
+						stat("skipped: other command")
+						return nil
+					}
+					want := ""
+					if i > 0 {
+						want = now[len(now)-i]
+					}
+					stat("decided: walk step in the call after an accepted history line")
+					if got := tr.Waits[w].Line; got != want {
+						return []Finding{{"C09", "walk-shows-wrong-entry/after-accepting-a-history-line", fmt.Sprintf("history %q; first call: %d × previous-history, RET returns %q; second call after %q (position %d from newest of %q): buffer %q, want %q", entries, j, accepted, unhex(nav[j+1:k+1]), i, now, got, want), c}}
+					}
+				}
+				return nil
 			}
 			n := len(entries)
 			i := 0
